@@ -550,11 +550,21 @@ def sym_max(*args, **kw):
     return best
 
 
+class IntD(int):
+    """int that survives `x + 1` and carries a dtype attribute (stands in for a numpy integer scalar)"""
+    dtype = "int32"
+
+    def __add__(self, o):
+        return IntD(int(self) + int(o))
+
+
 class _Arr:
     def __init__(self, x):
         self.x = x
 
     def astype(self, dt):
+        if isinstance(self.x, int) and not isinstance(self.x, bool):
+            return IntD(self.x)
         return self.x
 
 
@@ -740,6 +750,8 @@ def run_scenario(scenario, modules, extra_patch=None, timeout_ms=20000, max_path
                 r["verdict"] = "sat"
                 vals = V.values(m)
                 r["model"] = vals
+                if "_exception" in res:
+                    r["sym_exception"] = res["_exception"]
                 # replay on the unpatched real code with python floats
                 try:
                     Vc = Vars(concrete=vals)
